@@ -9,6 +9,7 @@ import (
 	"path/filepath"
 	"runtime"
 	"strconv"
+	"strings"
 	"sync"
 	"testing"
 
@@ -64,24 +65,42 @@ func (a *Agg) Add(res *vsync.Result, keyFn func(v *vsync.Violation) string) {
 	if len(a.Samples) < 4 && len(res.Samples) > 0 {
 		a.Samples = append(a.Samples, map[string]any{"scenario": res.Name, "schedule": res.Samples[len(res.Samples)-1]})
 	}
-	a.Nondet = append(a.Nondet, res.NondetErrors...)
+	for _, e := range res.NondetErrors {
+		a.Nondet = append(a.Nondet, res.Name+": "+e)
+	}
 	for i := range res.Violations {
 		v := &res.Violations[i]
 		key := res.Name
 		if keyFn != nil {
 			key = keyFn(v)
 		}
-		a.Run.Violation(key, fmt.Sprintf("%s [preemptions=%d]", v.What, v.Preempt), map[string]any{
-			"scenario": res.Name, "choices": v.Choices, "trace": v.Trace, "log": v.Log,
-		})
+		// a key may name several violation classes separated by " ; "
+		for _, k := range strings.Split(key, " ; ") {
+			a.Run.Violation(k, fmt.Sprintf("%s [scenario=%s preemptions=%d]", v.What, res.Name, v.Preempt), map[string]any{
+				"scenario": res.Name, "choices": CompactChoices(v.Choices), "trace": v.Trace, "log": v.Log,
+			})
+		}
 	}
+}
+
+// CompactChoices renders a choice list as "chosen/n" strings (e = environment choice).
+func CompactChoices(ps []vsync.Point) []string {
+	out := make([]string, len(ps))
+	for i, p := range ps {
+		e := ""
+		if p.Env {
+			e = "e"
+		}
+		out[i] = fmt.Sprintf("%s%d/%d", e, p.Chosen, p.N)
+	}
+	return out
 }
 
 // Finish writes coverage keys into the run. It fails loudly (exit 2) on
 // nondeterminism or vacuous exploration.
 func (a *Agg) Finish(wantConcurrency bool) {
 	if len(a.Nondet) > 0 {
-		evid.Fatal("nondeterministic exploration: %v", a.Nondet[0])
+		evid.Fatal("nondeterministic exploration (%d): %v", len(a.Nondet), strings.Join(a.Nondet[:min(len(a.Nondet), 5)], " || "))
 	}
 	if wantConcurrency && a.MaxEnabled < 2 {
 		evid.Fatal("vacuous exploration: never two threads enabled")
